@@ -17,6 +17,7 @@ BaseAlpha(b) == b \in {"vp8la", "x-alph-vp8", "x-vp8la", "x-anim-alpha"}
 
 Irrs == {"icc", "exif", "xmp",                 \* regular metadata in the regular place
          "zero-alph",                          \* ALPH chunk of length 0 in front of the VP8 chunk
+         "opaque-alph", "opaque-alph-filtered",\* the ALPH chunk of the picture decodes to 255 everywhere (raw / horizontal filter)
          "unk-before", "unk-after",            \* unknown chunk (odd length) before / after the image
          "exif-before", "icc-after",           \* metadata on the wrong side of the image
          "over-alpha", "over-icc", "over-exif", "over-xmp",     \* flag set, chunk absent
@@ -27,6 +28,8 @@ Irrs == {"icc", "exif", "xmp",                 \* regular metadata in the regula
 Compatible(b, i, s) ==
   /\ (i # "trailing" /\ i # "odd-meta" => IsExt(b))
   /\ (i = "zero-alph" => b = "x-vp8")
+  /\ (i = "opaque-alph" => b = "x-alph-vp8" /\ "opaque-alph-filtered" \notin s)
+  /\ (i = "opaque-alph-filtered" => b = "x-alph-vp8" /\ "opaque-alph" \notin s)
   /\ (i = "over-alpha" => ~BaseAlpha(b) /\ "zero-alph" \notin s)
   /\ (i = "under-alpha" => BaseAlpha(b))
   /\ (i = "over-icc" => {"icc", "icc-after"} \cap s = {})
@@ -46,23 +49,23 @@ vars == <<base, irr>>
 Ch(tag, tok) == [tag |-> tag, tok |-> tok]
 Opt(c, x) == IF c THEN <<x>> ELSE <<>>
 
-ImageChunks(b) ==
+ImageChunks(b, s) ==
   CASE b \in {"vp8", "x-vp8"} -> <<Ch("VP8 ", "vp8")>>
     [] b \in {"vp8l", "x-vp8l"} -> <<Ch("VP8L", "vp8l")>>
     [] b \in {"vp8la", "x-vp8la"} -> <<Ch("VP8L", "vp8la")>>
-    [] b = "x-alph-vp8" -> <<Ch("ALPH", "alph"), Ch("VP8 ", "vp8a")>>
+    [] b = "x-alph-vp8" -> <<Ch("ALPH", IF "opaque-alph" \in s THEN "alph-opaque" ELSE IF "opaque-alph-filtered" \in s THEN "alph-opaque-f" ELSE "alph"), Ch("VP8 ", "vp8a")>>
     [] b = "x-anim" -> <<Ch("ANIM", "anim"), Ch("ANMF", "f-vp8"), Ch("ANMF", "f-vp8l")>>
     [] b = "x-anim-alpha" -> <<Ch("ANIM", "anim"), Ch("ANMF", "f-vp8la"), Ch("ANMF", "f-alph-vp8"), Ch("ANMF", "f-vp8")>>
 
 Blob(s) == IF "odd-meta" \in s THEN "odd" ELSE "even"
 Chunks(b, s) ==
-  IF ~IsExt(b) THEN ImageChunks(b)
+  IF ~IsExt(b) THEN ImageChunks(b, s)
   ELSE <<Ch("VP8X", "vp8x")>>
        \o Opt("icc" \in s, Ch("ICCP", Blob(s)))
        \o Opt("exif-before" \in s, Ch("EXIF", Blob(s)))
        \o Opt("unk-before" \in s, Ch("UNKN", "odd"))
        \o Opt("zero-alph" \in s, Ch("ALPH", "empty"))
-       \o ImageChunks(b)
+       \o ImageChunks(b, s)
        \o Opt("icc-after" \in s, Ch("ICCP", Blob(s)))
        \o Opt("unk-after" \in s, Ch("UNKN", "odd"))
        \o Opt("exif" \in s, Ch("EXIF", Blob(s)))
